@@ -1,0 +1,116 @@
+//! Verification-only instrumentation (cargo feature `verif-hooks`).
+//!
+//! Keeps a process-wide registry of the arena chunks that are
+//! currently alive, and optionally *quarantines* released chunks:
+//! instead of returning their storage to the allocator, the storage
+//! is poisoned and parked until [`release_quarantine`] is called, so
+//! that a stale slice can never alias a more recent allocation while
+//! a test harness is looking.
+//!
+//! Nothing in this module is compiled unless the feature is enabled.
+use std::mem::MaybeUninit;
+use std::sync::Mutex;
+
+/// Byte written over the storage of quarantined chunks.
+pub const POISON: u8 = 0xFC;
+
+/// Address range of one arena chunk.
+#[derive(Clone, Copy, Debug, Eq, PartialEq)]
+pub struct ChunkInfo {
+    /// Serial number, unique within the process.
+    pub id: u64,
+    /// Address of the first byte.
+    pub start: usize,
+    /// Size in bytes.
+    pub len: usize,
+}
+
+struct Registry {
+    next_id: u64,
+    quarantine: bool,
+    live: Vec<ChunkInfo>,
+    retired: Vec<ChunkInfo>,
+    parked: Vec<Box<[MaybeUninit<u8>]>>,
+}
+
+static REGISTRY: Mutex<Registry> = Mutex::new(Registry {
+    next_id: 0,
+    quarantine: false,
+    live: Vec::new(),
+    retired: Vec::new(),
+    parked: Vec::new(),
+});
+
+fn registry() -> std::sync::MutexGuard<'static, Registry> {
+    match REGISTRY.lock() {
+        Ok(guard) => guard,
+        Err(poison) => poison.into_inner(),
+    }
+}
+
+/// Called when a chunk is created.
+pub(crate) fn chunk_created(start: usize, len: usize) {
+    let mut reg = registry();
+    let id = reg.next_id;
+    reg.next_id += 1;
+    reg.live.push(ChunkInfo { id, start, len });
+}
+
+/// Called when a chunk is released, with its storage.  Returns the
+/// storage the caller should hand back to the allocator: the argument
+/// itself normally, or an empty box when the storage was quarantined.
+pub(crate) fn chunk_released(mut storage: Box<[MaybeUninit<u8>]>) -> Box<[MaybeUninit<u8>]> {
+    let start = storage.as_ptr() as usize;
+    let len = storage.len();
+
+    let mut reg = registry();
+    if let Some(pos) = reg
+        .live
+        .iter()
+        .position(|info| info.start == start && info.len == len)
+    {
+        let info = reg.live.swap_remove(pos);
+        if reg.quarantine {
+            reg.retired.push(info);
+        }
+    }
+
+    if reg.quarantine {
+        for slot in storage.iter_mut() {
+            *slot = MaybeUninit::new(POISON);
+        }
+        reg.parked.push(storage);
+        Vec::new().into_boxed_slice()
+    } else {
+        storage
+    }
+}
+
+/// Turns quarantine mode on or off.  Turning it off does not release
+/// what is already parked; see [`release_quarantine`].
+pub fn set_quarantine(enabled: bool) {
+    registry().quarantine = enabled;
+}
+
+/// Frees every parked chunk and forgets the retired ranges.
+pub fn release_quarantine() {
+    let parked = {
+        let mut reg = registry();
+        reg.retired.clear();
+        std::mem::take(&mut reg.parked)
+    };
+
+    drop(parked);
+}
+
+/// Returns the chunks that are currently alive.
+pub fn live_chunks() -> Vec<ChunkInfo> {
+    registry().live.clone()
+}
+
+/// Returns the chunks released since the last [`release_quarantine`]
+/// while quarantine mode was on (their storage is still mapped, and
+/// filled with [`POISON`]).
+pub fn retired_chunks() -> Vec<ChunkInfo> {
+    registry().retired.clone()
+}
